@@ -5,6 +5,8 @@ parent is the state of a fresh process, so "result in isolation" is a fork that 
 
   * memo_search      function-level: f(y) after f(x) vs f(y) in isolation, arguments drawn from type-directed pools (TrueType
                      programs and all their one-byte variants, AES keys, paths, glyph-id lists) -- finds colliding cache keys;
+                     then with TRANSIENT arguments (transient_search: f(x), x dies, f(y) with y allocated at x's former address)
+                     -- finds keys built from object identity (id(arg)) by a memo that does not keep the object alive;
   * history_search   document-level: generated documents (EPUB / HTML incl. truncated ones, text, archives, corrupt inputs) and
                      small fixtures, every ordered pair against the isolated baseline, process-global state before / after;
   * serial_search    stored payloads deserialised after other (de)serialisation work vs in isolation;
@@ -330,12 +332,12 @@ def make_zip(members):
     return buf.getvalue()
 
 
-def make_pdf(lines):
+def make_pdf(lines, resources_extra=b""):
     """One-page PDF, Helvetica, one text line per `lines` entry (uncompressed content stream, valid xref)."""
     esc = lambda t: t.replace("\\", "\\\\").replace("(", "\\(").replace(")", "\\)")
     content = ("BT /F1 11 Tf 72 740 Td 14 TL\n" + "\n".join(f"({esc(l)}) Tj T*" for l in lines) + "\nET").encode("latin-1", "replace")
     objs = [b"<< /Type /Catalog /Pages 2 0 R >>", b"<< /Type /Pages /Kids [3 0 R] /Count 1 >>",
-            b"<< /Type /Page /Parent 2 0 R /MediaBox [0 0 612 792] /Contents 5 0 R /Resources << /Font << /F1 4 0 R >> >> >>",
+            b"<< /Type /Page /Parent 2 0 R /MediaBox [0 0 612 792] /Contents 5 0 R /Resources << /Font << /F1 4 0 R >> " + resources_extra + b" >> >>",
             b"<< /Type /Font /Subtype /Type1 /BaseFont /Helvetica /Encoding /WinAnsiEncoding >>",
             b"<< /Length %d >>\nstream\n" % len(content) + content + b"\nendstream"]
     out, offs = bytearray(b"%PDF-1.4\n"), []
@@ -445,6 +447,9 @@ def generated_corpus(tmp):
     # PDFs with tables that share row labels but not vocabulary
     for k, (lab, lines) in enumerate(TABLE_PAGES.items()):
         add(f"pdf {lab}", f"table{k}.pdf", make_pdf(lines))
+    # PDFs whose text extracts but whose page resources are malformed (the failure comes AFTER the text of the page was produced)
+    for k, extra in enumerate([b"/XObject [ ]", b"/XObject 7", b"/XObject /Name", b"/XObject << /Im0 9 0 R >>", b"/XObject << /Im0 << /Subtype /Image >> >>", b"/ExtGState 3"]):
+        add(f"pdf with malformed resources {extra.decode()}", f"badres{k}.pdf", make_pdf(["Some text before the damage.", "Total cashflow 1 2"], extra))
     # archives: the same base names in different directories / under system prefixes, in both container formats
     members_mac = [("__MACOSX/summary.txt", "resource fork junk"), ("__MACOSX/._notes.txt", "junk"), ("notes.txt", "real notes")]
     members_plain = [("reports/summary.txt", "the real summary"), ("reports/notes.txt", "other notes"), (".hidden/summary.txt", "x")]
@@ -610,6 +615,70 @@ def memo_search(rel, qual, budget=700):
                             "expected": f"the result of the same call in a fresh process: {json.dumps(b)[:300]}", "observed": json.dumps(g2)[:300],
                             "search": "memo differential: f(y) after f(x) vs f(y) in a forked pristine process"}
         # and the other direction: x after each y is covered when y becomes x for the two `other` bases above
+    return transient_search(f, cands, base, show, rel, qual)
+
+
+def fresh_copy(v):
+    """An equal object at a new address (for the types whose instances live on the heap)."""
+    if isinstance(v, bytes):
+        return bytes(memoryview(v)) if v else v
+    if isinstance(v, bytearray):
+        return bytearray(v)
+    if isinstance(v, str):
+        return (v + " ")[:-1] if len(v) > 1 else v
+    if isinstance(v, list):
+        return [fresh_copy(e) for e in v]
+    if isinstance(v, tuple):
+        return tuple(fresh_copy(e) for e in v)
+    return v
+
+
+def transient_search(f, cands, base, show, rel, qual, cap=40):
+    """Arguments that DIE between the two calls: f(x) with x dropped afterwards, then f(y) with every argument of y allocated at the
+    address the corresponding argument of x had (CPython hands a freed block to the next object of its size class) -- finds memo keys
+    built from object identity (`id(arg)`, `hash` of an identity-hashed object) that do not keep the object alive.  The pools above
+    keep every candidate alive, so no two of their objects ever share an address."""
+    def sig(t):
+        return tuple((type(v).__name__, len(v)) if hasattr(v, "__len__") else (type(v).__name__, None) for v in t)
+    groups = {}
+    for y, b in zip(cands, base):
+        if b is not None and any(isinstance(v, (bytes, bytearray, str, list, tuple)) and len(v) > 1 for v in y):
+            groups.setdefault(sig(y), []).append((y, b))
+    pairs = []
+    for g in sorted(groups.values(), key=lambda g_: -len(g_)):
+        picks = [(0, 1), (1, 0), (0, len(g) - 1)] if len(g) > 1 else []
+        for (i, j) in picks:
+            if i != j and g[i][1] != g[j][1] and (g[i][0], g[j][0], g[j][1]) not in pairs:
+                pairs.append((g[i][0], g[j][0], g[j][1]))
+    for (x, y, b) in pairs[:cap]:
+        def run(x=x, y=y):
+            xs = [fresh_copy(v) for v in x]
+            ids = [id(v) for v in xs]
+            outcome(f, *xs)
+            del xs
+            ys, reused = [], 0
+            for i, v in enumerate(y):
+                keep, got = [], None
+                for _ in range(64):
+                    c = fresh_copy(v)
+                    if id(c) == ids[i] and c is not v:
+                        got = c
+                        break
+                    keep.append(c)
+                reused += got is not None
+                ys.append(got if got is not None else fresh_copy(v))
+                del keep
+            return [outcome(f, *ys), reused]
+        got = forked(run).get("ok")
+        if got and got[1] and got[0] != b:
+            again = forked(run).get("ok")
+            if again and again[0] != b:
+                return {"reproduced": True, "target": f"{rel}::{qual}",
+                        "inputs": {"history": [show(x)], "call": show(y),
+                                   "lifetime": "the arguments of the earlier call are garbage before the later call; the later arguments are new objects "
+                                               f"that the allocator placed at the earlier arguments' addresses ({got[1]} of {len(y)})"},
+                        "expected": f"the result of the same call in a fresh process: {json.dumps(b)[:300]}", "observed": json.dumps(again[0])[:300],
+                        "search": "memo differential with transient arguments: f(x); del x; f(y) with id(y) == the former id(x), vs f(y) in a forked pristine process"}
     return None
 
 
@@ -692,6 +761,19 @@ def history_search(docs=None, extra_note=""):
         def alone(p):
             before = dict(global_state(), **package_state())
             d = digest(sharepoint2text, p)
+            # a failed extraction whose exception the caller KEEPS (error list, batch report, logging with exc_info): the state must
+            # be back although the traceback still references the library's frames
+            held = []
+            try:
+                ex = sharepoint2text.get_extractor(p)
+                list(ex(io.BytesIO(open(p, "rb").read()), p))
+            except Exception as exc:  # noqa
+                held.append(exc)
+            if held:
+                leaks = [m for m in state_diff(before, dict(global_state(), **package_state())) if m[0] != "open_fds"]
+                if leaks:
+                    return [d, [(leaks[0][0], leaks[0][1] + " (while the caller still holds the raised exception)")]]
+            del held
             # a generator abandoned half-way (the caller stops iterating) must clean up as well
             try:
                 ex = sharepoint2text.get_extractor(p)
